@@ -88,6 +88,13 @@ def dispatch(E, f, args, node):
     if f.kind == 'method':
         h = METHODS.get(qual)
         if h is None:
+            if isinstance(f.bound, Obj) and qual.startswith('bycycle.') and qual.split('.')[-1].startswith('_') \
+                    and not qual.split('.')[-1].startswith('__') and not E.spec_mode:
+                # a private method of the object under analysis without a contract: executed in place, self bound
+                mi_, fdef_ = E.sources.func(qual)
+                if fdef_ is not None:
+                    return call_inline(E, qual, CallArgs([f.bound] + list(args.pos), dict(args.kw), list(args.star_kw)), node,
+                                       keep_self=True)
             raise Unsupported('method %s (line %s)' % (qual, getattr(node, 'lineno', '?')))
         return h(E, f.bound, args, node)
     if qual in E.contracts and not E.spec_mode and 'abstract' in E.contracts[qual] and args.pos \
@@ -101,6 +108,12 @@ def dispatch(E, f, args, node):
     h = LIB.get(qual)
     if h is not None:
         return h(E, args, node)
+    if qual.startswith('bycycle.') and not E.spec_mode:
+        # a repository function without a contract (typically a small private helper introduced by a refactoring): its
+        # body is executed as part of the caller (loops inside it still need invariants, i.e. usually it must be loop-free)
+        mi_, fdef_ = E.sources.func(qual)
+        if fdef_ is not None and qual.split('.')[-1].startswith('_'):
+            return call_inline(E, qual, args, node)
     raise Unsupported('no contract for callee %s (line %s)' % (qual, getattr(node, 'lineno', '?')))
 
 
@@ -1611,17 +1624,23 @@ def np_size(E, args, node):
     raise Unsupported('np.size(%r)' % (v,))
 
 
-def call_inline(E, qual, args, node):
+def call_inline(E, qual, args, node, keep_self=False):
     """a private helper without loops is executed in place (its body is then part of the caller's verification
     conditions; no contract is assumed for it)"""
     mi, fdef = E.sources.func(qual)
     if fdef is None:
         raise Unsupported('callee %s not found' % qual)
-    bound = bind_params(E, qual, args, node)
+    if keep_self:
+        slf, rest = args.pos[0], CallArgs(list(args.pos[1:]), dict(args.kw), list(args.star_kw))
+        bound = bind_params(E, qual, rest, node)
+        bound['self'] = slf
+    else:
+        bound = bind_params(E, qual, args, node)
     saved_env = E.st.env
     saved_stack = E.mod_stack
     E.st.env = dict(bound)
     E.mod_stack = E.mod_stack + [mi]
+    E.inline_depth = getattr(E, 'inline_depth', 0) + 1
     try:
         try:
             E.exec_block(fdef.body)
@@ -1631,6 +1650,7 @@ def call_inline(E, qual, args, node):
     finally:
         E.st.env = saved_env
         E.mod_stack = saved_stack
+        E.inline_depth -= 1
     return result
 
 
